@@ -20,6 +20,12 @@ def eval_call(I: Interp, n: ast.Call, env: Env):
         r = quantifier(I, n.func.id, n.args[0], env)
         if r is not _MISSING:
             return r
+    if isinstance(n.func, ast.Name) and n.func.id == "when" and I.V.in_contract_expr:
+        # lazy implication: the consequent is not evaluated on paths where the antecedent is concretely false
+        c = I.truth(I.eval(n.args[0], env))
+        if isinstance(c, bool):
+            return I.eval(n.args[1], env) if c else True
+        return SV(z3.Implies(c, I.zbool(I.eval(n.args[1], env))), BOOL)
     if isinstance(n.func, ast.Name) and n.func.id == "ifndef" and I.V.in_contract_expr:
         from .interp import _UNBOUND as _UB
 
@@ -262,6 +268,8 @@ def call_value(I: Interp, f, args, kwargs, node=None):
 
 
 def b_len(I, v):
+    if isinstance(v, SV) and v.ty == STR:
+        return SV(z3.Length(v.t), INT)
     if v is _UNBOUND and I.V.in_contract_expr:
         return -1  # an unassigned field has no length: clauses comparing it with a real length are false
     if isinstance(v, SList):
@@ -510,6 +518,7 @@ BUILTINS.update({
     "True": True, "False": False, "None": None, "Ellipsis": Ellipsis,
 })
 BUILTINS["open"] = FuncRef("open")
+BUILTINS["bytes"] = ClassRef("bytes", "bytes")
 for _e in ("Exception", "AssertionError", "TypeError", "ValueError", "KeyError", "IndexError", "StopIteration",
            "AttributeError", "ImportError", "ModuleNotFoundError", "NotImplementedError", "RuntimeError",
            "SyntaxError", "OSError", "FileNotFoundError", "BaseException", "LookupError", "NotImplemented"):
@@ -608,6 +617,10 @@ def builtin_method(I: Interp, base, name, args, kwargs, node=None):
     if r is not _MISSING:
         return r
     if isinstance(base, SV) and base.ty == STR:
+        if name == "endswith" and len(args) == 1 and isinstance(args[0], (str, SV)):
+            return SV(z3.simplify(z3.SuffixOf(pack(I.ctx, args[0], STR), base.t)), BOOL)
+        if name == "startswith" and len(args) == 1 and isinstance(args[0], (str, SV)):
+            return SV(z3.simplify(z3.PrefixOf(pack(I.ctx, args[0], STR), base.t)), BOOL)
         return I.V.havoc_call(I, f"str.{name}", args, kwargs, node)
     raise Unsupported(f"method {name} on {base!r}")
 
